@@ -18,7 +18,7 @@ MODELS = {
     'sheets': dict(cells={'Sheet1!A1': 4, 'Data!A1': 10, 'My Sheet!A1': 7, 'Data!B1': '=A1*2', 'Sheet1!B1': "=Data!B1+'My Sheet'!A1",
                           'Sheet1!C1': '=SUM(Data!A1:B1)', 'My Sheet!B1': '=Sheet1!B1&"x"'}, names={'total': 'Sheet1!$C$1'}),
 }
-POINTS = ['built', 'uncompiled', 'evaluated', 'overwritten', 'evaluated-then-overwritten', 'evaluated-after-overwrite']
+POINTS = ['built', 'uncompiled', 'evaluated', 'overwritten', 'evaluated-then-overwritten', 'evaluated-after-overwrite', 'switched-off']
 
 
 def full(a):
@@ -55,7 +55,7 @@ def snapshot(model):
     from drivers.common import observe
     cells = {a: (observe(c.value) if not isinstance(c.value, (list, dict)) else repr(c.value), c.formula.formula if c.formula else None)
              for a, c in model.cells.items()}
-    formulae = {a: f.formula for a, f in model.formulae.items()}
+    formulae = {a: (f.formula, f.sheet_name, f.evaluate, tuple(f.terms)) for a, f in model.formulae.items()}
     names = {n: (type(d).__name__, getattr(d, 'address_str', None) or d.address) for n, d in model.defined_names.items()}
     ranges = {k: r.cells for k, r in model.ranges.items()}
     return cells, formulae, names, ranges
@@ -86,6 +86,12 @@ def oracle(c):
                         ev.evaluate(a)
                     except Exception:      # noqa
                         pass
+        if c['point'] == 'switched-off':
+            # a formula whose evaluation is switched off (XLFormula.evaluate = False): the cell keeps the value it holds
+            fcells = [a for a in model.cells if model.cells[a].formula is not None]
+            if fcells:
+                model.cells[fcells[0]].formula.evaluate = False
+                model.cells[fcells[0]].value = 5
         d = tempfile.mkdtemp(dir=os.path.join(ROOT, 'scratch'))
         fn = os.path.join(d, 'model' + c['ext'])
         try:
@@ -132,6 +138,6 @@ DRIVERS = [
            rule='seeded random acyclic models (drivers/gen_models.py: 1-3 sheets incl. a quoted one, constants of every type with holes, formulas over cells / ranges / names) x a random point of the history x a random extension: same checks as B2.roundtrip',
            bound='12 (quick) / 3000 (thorough) models'),
     Driver('C12/B2.roundtrip', cases, oracle, nchunks=6, exhaustive=True,
-           rule='3 models (all value types: ints, floats incl. 1e300 / 5e-324 / -0.0, booleans, empty and non-ASCII text, quotes, dates, formulas yielding errors, ranges, defined names; three sheets incl. a quoted one) x 6 points of a build / evaluate / set_cell_value history (incl. evaluate, overwrite, persist without evaluating again) x 4 file extensions (.json, .gz, .gzip, .JSON.GZ): compression by extension, equality of cells / formulae / names / ranges, equal evaluation of every cell',
+           rule='3 models (all value types: ints, floats incl. 1e300 / 5e-324 / -0.0, booleans, empty and non-ASCII text, quotes, dates, formulas yielding errors, ranges, defined names; three sheets incl. a quoted one) x 7 points of a build / evaluate / set_cell_value history (incl. evaluate, overwrite, persist without evaluating again; a formula whose evaluation is switched off) x 4 file extensions (.json, .gz, .gzip, .JSON.GZ): compression by extension, equality of cells / formulae (text, sheet, evaluate flag, terms) / names / ranges, equal evaluation of every cell',
            bound='the listed models (complete)'),
 ]
